@@ -283,6 +283,12 @@ def run(ctx, jobs: list, corr: Corr, seen: set) -> None:
     cases, src = [], []
     for ji, (job, res) in enumerate(zip(jobs, results)):
         ref = res.get('reference')
+        if str(res.get('error') or '').startswith('build:') or str((res.get('reference') or {}).get('error') or '').startswith('build:'):
+            # the harness could not even build the statement (its own wrapper): never a disagreement between model and implementation
+            corr.extra['harness_build_failures'] = corr.extra.get('harness_build_failures', 0) + 1
+            ctx.notes.append(f'harness build failure, job {job["name"]} ({job["form"]}): {res.get("error")}')
+            ctx.log(f'NOTE: harness could not build {job["name"]} ({job["form"]}): {str(res.get("error"))[:160]}')
+            continue
         if res.get('error') == 'timeout':
             # three runs of this job did not finish: the program does not terminate under nextline (every generated program
             # terminates when executed directly) -- a finding about the implementation, not a model disagreement
@@ -362,6 +368,7 @@ def correspond(ctx) -> Corr:
     ctx.log(f'{len(jobs)} jobs')
     run(ctx, jobs, corr, seen)
     corr.violations.sort(key=lambda v: (len(v.data.get('job', {}).get('src', '')), v.signature))
+    corr.extra['programs_skipped_at_generation'] = progen.SKIPPED['invalid_programs']
     ctx.log(f'jobs={corr.evaluations} traceback cases={corr.traces_validated} mismatches={len(corr.mismatches)} oracle hits={len(corr.violations)}')
     return corr
 
